@@ -296,3 +296,191 @@ Definition flush_in_sink (cfg : fatal_cfg) : fatal_cfg :=
 Definition mk (i l : N) : rec := {| rid := i; rlen := l |}.
 Definition info (i l : N) : msg := (Info, mk i l).
 Definition is_type (ty : mtype) : flt := fun m => mtype_eqb (fst m) ty.
+
+(* ================= histories with explicit flush() calls and reconfiguration =================
+   [tmap settle] forgets where the records of a sink sit (file or write buffer).  Every step of the
+   model, seen through it, is the corresponding step of the unbuffered specification [sstep]. *)
+Lemma settle_fields s :
+  settle s = {| sid := sid s; presize := presize s; broken := broken s; disk := content s; buf := [] |}.
+Proof. reflexivity. Qed.
+Lemma qflush_presize s : presize (qflush s) = presize s.
+Proof. unfold qflush. destruct (broken s); reflexivity. Qed.
+Lemma sink_flush_presize cfg s : presize (sink_flush cfg s) = presize s.
+Proof. unfold sink_flush. destruct (fs_flush_real cfg); [apply qflush_presize|reflexivity]. Qed.
+Lemma write_presize cfg pol rej s m : presize (write cfg pol rej s m) = presize s.
+Proof.
+  unfold write. destruct (rej (sid s) (snd m)); [reflexivity|].
+  set (s1 := if rot_presize cfg && presize s then qflush s else s).
+  assert (E1 : presize s1 = presize s) by (unfold s1; destruct (rot_presize cfg && presize s); [apply qflush_presize|reflexivity]).
+  destruct (pol s1 (snd m)) as [pre post].
+  set (s2 := if pre then qflush s1 else s1).
+  assert (E2 : presize s2 = presize s) by (unfold s2; destruct pre; [rewrite qflush_presize|]; exact E1).
+  set (s4 := if post then qflush (qappend s2 (snd m)) else qappend s2 (snd m)).
+  assert (E4 : presize s4 = presize s) by (unfold s4; destruct post; [rewrite qflush_presize|]; exact E2).
+  destruct (mem_type (fst m) (snk_flush_types cfg)); [rewrite sink_flush_presize|]; exact E4.
+Qed.
+Lemma settle_sink_flush cfg s : settle (sink_flush cfg s) = settle s.
+Proof.
+  rewrite !settle_fields, sink_flush_sid, sink_flush_presize, sink_flush_broken, sink_flush_content. reflexivity.
+Qed.
+Lemma settle_write cfg pol rej s m : settle (write cfg pol rej s m) = swrite rej (settle s) m.
+Proof.
+  rewrite (settle_fields (write cfg pol rej s m)), write_presize.
+  destruct (write_spec cfg pol rej s m) as (-> & -> & ->).
+  unfold swrite. cbn [settle sid presize broken disk buf]. unfold content.
+  destruct (rej (sid s) (snd m)); [rewrite app_nil_r|]; reflexivity.
+Qed.
+
+Definition slw rej (m : msg) : list tree -> bool -> list tree :=
+  fix slw (l : list tree) (lv : bool) : list tree :=
+    match l with [] => [] | x :: r => stwrite rej m lv x :: slw r (lnext m lv x) end.
+Lemma stwrite_pipe rej m lv l : stwrite rej m lv (TPipe l) = TPipe (slw rej m l lv).
+Proof. reflexivity. Qed.
+Lemma slw_cons rej m x r lv : slw rej m (x :: r) lv = stwrite rej m lv x :: slw rej m r (lnext m lv x).
+Proof. reflexivity. Qed.
+Lemma lnext_tmap f m lv t : lnext m lv (tmap f t) = lnext m lv t.
+Proof. destruct t; reflexivity. Qed.
+Lemma tmap_pipe f l : tmap f (TPipe l) = TPipe (map (tmap f) l).
+Proof. reflexivity. Qed.
+
+Lemma tmap_twrite cfg pol rej m : forall t lv,
+  tmap settle (twrite cfg pol rej m lv t) = stwrite rej m lv (tmap settle t).
+Proof.
+  induction t as [s|l IH|f| |] using tree_ind2; intros lv; try reflexivity.
+  - cbn [twrite tmap stwrite]. destruct lv; [rewrite settle_write|]; reflexivity.
+  - rewrite twrite_pipe, !tmap_pipe, stwrite_pipe. f_equal. revert lv.
+    induction IH as [|x r Hx _ IHr]; intros lv; [reflexivity|].
+    rewrite lw_cons. cbn [map]. rewrite slw_cons, lnext_tmap, Hx, IHr. reflexivity.
+Qed.
+Lemma tmap_tflush cfg : forall t, tmap settle (tflush cfg t) = tmap settle t.
+Proof.
+  induction t as [s|l IH|f| |] using tree_ind2; try reflexivity; cbn [tflush].
+  - destruct (rf_flush_sinks cfg); [|reflexivity]. cbn [tmap]. rewrite settle_sink_flush. reflexivity.
+  - destruct (rf_descends cfg); [|reflexivity]. rewrite !tmap_pipe. f_equal. rewrite map_map.
+    induction IH as [|x r Hx _ IHr]; [reflexivity|]. cbn [map]. rewrite Hx, IHr. reflexivity.
+Qed.
+Lemma tmap_root_flush cfg t : tmap settle (root_flush cfg t) = tmap settle t.
+Proof.
+  destruct t as [s|l|f| |]; try apply tmap_tflush. unfold root_flush. rewrite !tmap_pipe. f_equal. rewrite map_map.
+  apply map_ext. intros x. apply tmap_tflush.
+Qed.
+Lemma tmap_process_message cfg pol rej t m :
+  tmap settle (process_message cfg pol rej t m) = stwrite rej m true (tmap settle t).
+Proof.
+  unfold process_message. destruct (ff_pos cfg).
+  - apply tmap_twrite.
+  - rewrite tmap_twrite. destruct (flushes cfg (fst m)); [rewrite tmap_root_flush|]; reflexivity.
+  - destruct (flushes cfg (fst m)); [rewrite tmap_root_flush|]; apply tmap_twrite.
+Qed.
+
+(* reconfigurations do not look inside the sinks *)
+Lemma walk_map f g g' : (forall l, g' (map (tmap f) l) = map (tmap f) (g l)) ->
+  forall l i, walk g' (map (tmap f) l) i = map (tmap f) (walk g l i).
+Proof.
+  intros H. induction l as [|x r IHl]; intros i; [reflexivity|].
+  cbn [map walk]. destruct i as [|i'].
+  - destruct x; cbn [tmap map]; try reflexivity. rewrite H. reflexivity.
+  - cbn [map]. rewrite IHl. reflexivity.
+Qed.
+Lemma at_path_map f h h' : (forall l, h' (map (tmap f) l) = map (tmap f) (h l)) ->
+  forall p l, at_path h' p (map (tmap f) l) = map (tmap f) (at_path h p l).
+Proof.
+  intros H. induction p as [|i p IHp]; intros l; cbn [at_path]; [apply H|].
+  apply walk_map. exact IHp.
+Qed.
+Lemma remove_handler_map f k : forall l, remove_handler k (map (tmap f) l) = map (tmap f) (remove_handler k l).
+Proof.
+  induction k as [|k IHk]; intros [|x r]; try reflexivity.
+  - destruct x; reflexivity.
+  - cbn [map remove_handler]. rewrite IHk. reflexivity.
+Qed.
+Lemma clear_sinks_map f : forall l,
+  filter (fun x => negb (is_sink x)) (map (tmap f) l) = map (tmap f) (filter (fun x => negb (is_sink x)) l).
+Proof.
+  induction l as [|x r IH]; [reflexivity|]. cbn [map filter].
+  replace (is_sink (tmap f x)) with (is_sink x) by (destruct x; reflexivity).
+  destruct (negb (is_sink x)); cbn [map]; rewrite IH; reflexivity.
+Qed.
+Lemma tmap_apply_op o t : tmap settle (apply_op o t) = apply_op (settle_op o) (tmap settle t).
+Proof.
+  destruct t as [s|l|f| |]; try reflexivity. unfold apply_op. rewrite !tmap_pipe. f_equal. symmetry.
+  replace (op_path (settle_op o)) with (op_path o) by (destruct o; reflexivity).
+  apply at_path_map. intros l0. destruct o as [p h|p k|p]; cbn [settle_op op_fun].
+  - rewrite map_app. reflexivity.
+  - apply remove_handler_map.
+  - apply clear_sinks_map.
+Qed.
+Lemma tmap_run_events cfg pol rej : forall evs t,
+  tmap settle (run_events cfg pol rej t evs) = fold_left (sstep rej) evs (tmap settle t).
+Proof.
+  unfold run_events. induction evs as [|e evs IH]; intros t; [reflexivity|]. cbn [fold_left]. rewrite IH. f_equal.
+  destruct e as [m| |o]; cbn [step sstep]; [apply tmap_process_message|apply tmap_root_flush|apply tmap_apply_op].
+Qed.
+
+(* the sinks of a tree seen through tmap *)
+Lemma gnext_tmap f pre t : gnext pre (tmap f t) = gnext pre t.
+Proof. destruct t; reflexivity. Qed.
+Lemma gs_tmap f : forall t pre, gs pre (tmap f t) = map (fun sg => (f (fst sg), snd sg)) (gs pre t).
+Proof.
+  induction t as [s|l IH|g| |] using tree_ind2; intros pre; try reflexivity.
+  rewrite tmap_pipe, !gs_pipe. revert pre.
+  induction IH as [|x r Hx _ IHr]; intros cur; [reflexivity|].
+  cbn [map go]. rewrite map_app, gnext_tmap, Hx, IHr. reflexivity.
+Qed.
+Lemma survivors_settle t : Forall flushed (gsinks t) -> survivors (tmap settle t) = survivors t.
+Proof.
+  unfold survivors, gsinks. rewrite gs_tmap, map_map. generalize (gs [] t). intros l H.
+  induction H as [|[s G] l Hs _ IH]; [reflexivity|]. cbn [map]. rewrite IH. f_equal. cbn [fst snd].
+  unfold flushed in Hs. cbn [fst] in Hs. cbn [settle broken disk].
+  destruct (broken s); [reflexivity|]. rewrite (Hs eq_refl), app_nil_r. reflexivity.
+Qed.
+
+(* THE theorem for histories with explicit flushes and reconfigurations: with a good configuration,
+   whatever was appended to / removed from the logger or any nested pipeline between the messages and
+   whatever flush() calls were made on earlier shapes of the tree, at abort the file of every healthy
+   file sink of the FINAL configuration holds exactly what the unbuffered logger would have written *)
+Theorem fatal_reaches_disk_ev cfg : cfg_goodb cfg = true ->
+  forall (pol : policy) (rej : reject) (t : tree) (evs : list event) (r : rec),
+  survivors (run_events_fatal cfg pol rej t evs r) = expected_ev rej t evs r.
+Proof.
+  intros Hg pol rej t evs r.
+  destruct (cfg_good_inv cfg Hg) as (Hp & Hf & Hs & Hd & Hr).
+  rewrite <- survivors_settle.
+  - unfold run_events_fatal. rewrite tmap_process_message, tmap_run_events.
+    unfold expected_ev, spec_run. rewrite fold_left_app. reflexivity.
+  - unfold run_events_fatal, process_message, gsinks. rewrite Hp. cbn [fst]. rewrite Hf.
+    apply gs_root_flush_flushed; assumption.
+Qed.
+Theorem oracle_ev_holds cfg : cfg_goodb cfg = true ->
+  forall pol rej t evs r,
+  prop_c11_ev_b rej t evs r (ids_of (survivors (run_events_fatal cfg pol rej t evs r))) = true.
+Proof.
+  intros Hg pol rej t evs r. unfold prop_c11_ev_b. rewrite (fatal_reaches_disk_ev cfg Hg). apply files_okb_refl.
+Qed.
+(* the model and the specification agree on WHICH sinks the final configuration has *)
+Theorem final_sids_model cfg pol rej t evs :
+  map (fun sg => sid (fst sg)) (gsinks (run_events cfg pol rej t evs)) = final_sids rej t evs.
+Proof.
+  unfold final_sids, spec_run. rewrite <- (tmap_run_events cfg pol). unfold gsinks. rewrite gs_tmap, map_map. reflexivity.
+Qed.
+
+(* a history of messages only: the specification is the closed form [expected] *)
+Definition ideal_cfg : fatal_cfg :=
+  {| ff_pos := FAfter; ff_types := [Fatal]; ff_cond := CAlways; rf_flush_sinks := true; rf_descends := true;
+     fs_flush_real := true; rot_presize := false; snk_flush_types := [] |}.
+Lemma run_events_msgs cfg pol rej msgs : forall t,
+  run_events cfg pol rej t (map EMsg msgs) = log_all cfg pol rej t msgs.
+Proof.
+  unfold run_events, log_all. induction msgs as [|m rest IH]; intros t; [reflexivity|]. cbn [map fold_left]. apply IH.
+Qed.
+Theorem expected_ev_msgs rej t msgs r : expected_ev rej t (map EMsg msgs) r = expected rej t (msgs ++ [(Fatal, r)]).
+Proof.
+  rewrite <- (fatal_reaches_disk_ev ideal_cfg eq_refl qfile_policy), <- (fatal_reaches_disk ideal_cfg eq_refl qfile_policy).
+  unfold run_events_fatal, run_fatal. rewrite run_events_msgs. reflexivity.
+Qed.
+(* explicit flush() calls anywhere in the history change nothing of what the property demands *)
+Theorem expected_ev_flush rej t evs1 evs2 r :
+  expected_ev rej t (evs1 ++ EFlush :: evs2) r = expected_ev rej t (evs1 ++ evs2) r.
+Proof.
+  unfold expected_ev, spec_run. rewrite <- !app_assoc, !fold_left_app. reflexivity.
+Qed.
